@@ -157,4 +157,4 @@ cfg("MC_schema_breaks0.cfg", {"MaxSteps": "= 0", "BreakSteps": "= 0", "EmitModel
 
 # ---- R3 (schedules): large faulty requests drawn by TLC in simulation mode -----------------------------
 cfg("MC_faults_sim.cfg", fault_consts(FieldAlpha="<- AlphaAll", Aliases='= {"", "z"}', Conds='= {"", "T", "P", "A", "B", "C", "U"}', DirOpts="<- NoDirs",
-    ArgOpts="<- ArgOptsStd", MaxSel="= 9", MaxDepth="= 4", MaxFrags="= 1", MaxOps="= 1", OpTypes='= {"query", "mutation"}', MaxFaults="= 2"), FAULT_INV, spec="SpecF")
+    ArgOpts="<- ArgOptsStd", MaxSel="= 9", MaxDepth="= 4", MaxFrags="= 1", MaxOps="= 1", OpTypes='= {"query", "mutation"}', MaxFaults="= 1"), FAULT_INV, spec="SpecF")
